@@ -813,7 +813,7 @@ func mergeOutcomes(entryLen int, a, b *Outcome) (*Outcome, bool) {
 		}
 	}
 	ga := And(a.St.pc[entryLen:]...)
-	gb := And(b.St.pc[entryLen:]...)
+	_ = b
 	ret, ok := mergeVal(ga, a.Ret, b.Ret)
 	if !ok {
 		mergeFail = "ret: " + describe(a.Ret) + " vs " + describe(b.Ret)
@@ -838,7 +838,31 @@ func mergeOutcomes(entryLen int, a, b *Outcome) (*Outcome, bool) {
 			heap[id] = ob
 		}
 	}
-	st := &State{pc: append(append([]*Term(nil), a.St.pc[:entryLen]...), Or(ga, gb)), known: map[int]bool{}, eqs: map[int]*Term{},
+	// factor the conjuncts both paths share out of the disjunction
+	inB := map[int]bool{}
+	for _, t := range b.St.pc[entryLen:] {
+		inB[t.ID] = true
+	}
+	var common, ra, rb []*Term
+	inCommon := map[int]bool{}
+	for _, t := range a.St.pc[entryLen:] {
+		if inB[t.ID] {
+			common = append(common, t)
+			inCommon[t.ID] = true
+		} else {
+			ra = append(ra, t)
+		}
+	}
+	for _, t := range b.St.pc[entryLen:] {
+		if !inCommon[t.ID] {
+			rb = append(rb, t)
+		}
+	}
+	npc := append(append([]*Term(nil), a.St.pc[:entryLen]...), common...)
+	if d := Or(And(ra...), And(rb...)); !d.IsTrue() {
+		npc = append(npc, d)
+	}
+	st := &State{pc: npc, known: map[int]bool{}, eqs: map[int]*Term{},
 		heap: heap, next: a.St.next, globals: a.St.globals, epoch: a.St.epoch, writes: a.St.writes, steps: a.St.steps + b.St.steps}
 	if b.St.next > st.next {
 		st.next = b.St.next
